@@ -277,8 +277,22 @@ class TracerScenario:
             return S("self." + attr)
         return RepoInterp.on_attr(self.ri, obj, attr, node, st)
 
+    def _is_cache_accessor(self, fi: FunctionInfo) -> bool:
+        """a method of the tracer whose whole job is the memoised look-up: it reads/writes `self.cache` and calls the look-up"""
+        if fi is self.fi or fi.cls is not self.cls:
+            return False
+        touches = any(isinstance(x, ast.Attribute) and x.attr == "cache" and isinstance(x.value, ast.Name) and x.value.id == "self" for x in ast.walk(fi.node))
+        looks_up = any(isinstance(x, ast.Call) and (dotted(x.func) or "").split(".")[-1] == "get_func" for x in ast.walk(fi.node))
+        return touches and looks_up
+
     def call_hook(self, call: ast.Call, fname: Optional[str], fval: Optional[V], args: List[V], kwargs: Dict[str, V], st: State) -> Optional[V]:
         meth = call.func.attr if isinstance(call.func, ast.Attribute) else None
+        if meth is not None and isinstance(fval, S) and fval.name == "self" and "cache" not in self.attrs and self.func_value is not None:
+            # where the cache is not the subject of the scenario (no real dict was handed in), the memoised look-up is the
+            # abstraction boundary: it answers with the scenario's function, however the cache represents its entries
+            m_ = self.repo.method(self.cls, meth)
+            if m_ is not None and self._is_cache_accessor(m_):
+                return self.func_value
         # a symbolic program value S('val:<n>') / S('arg') is a plain instance of a user class of its own
         if len(args) == 1 and isinstance(args[0], S) and (args[0].name.startswith("val:") or args[0].name == "arg") and not kwargs:
             if fname == "type":
